@@ -302,7 +302,7 @@ func verifServe(base string) {
 			for k, v := range cmd.Headers {
 				req.Header.Set(k, v)
 			}
-			resp, err := app.Test(req, 30000)
+			resp, err := app.Test(req, -1)
 			if err != nil {
 				vio.say(map[string]interface{}{"ev": "written", "status": 0, "err": err.Error()})
 				continue
